@@ -30,7 +30,7 @@ def q(x):
 
 def gen_real(rng):
     """a program of real epgpy operators, described by constructor expressions (evaluated with `epg` in scope)"""
-    fam = rng.choice(["1d", "nd", "nd", "float", "xchg", "diffusion", "trunc", "trunc"])
+    fam = rng.choice(["1d", "nd", "nd", "float", "halfgrid", "xchg", "diffusion", "diffusion", "trunc", "trunc"])
     ops, init, opts = [], "epg.StateMatrix()", {}
 
     def rf():
@@ -95,6 +95,30 @@ def gen_real(rng):
                 v = [rng.choice([0.5, 1.0, -1.25, 2.0, 0.75]) for _ in range(dim)]
                 ops.append("epg.S(np.array(%s)%s)" % (v, rng.choice(["", "", ", prune=%s" % rng.choice([0, 1e-3])])))
             else: ops.append("epg.RESET")
+    elif fam == "halfgrid":
+        # integer n-D shifts on a grid twice (or 2/3) as coarse: states sit exactly at half cells; then float shifts,
+        # single (shift-merge) or batched (shift-prune), by multiples of half a cell
+        dim = rng.choice([1, 2, 3])
+        g = rng.choice([2.0, 2.0, 1.0, 0.5])
+        init = "epg.StateMatrix(kgrid=%s)" % g
+        def ivec():
+            v = [rng.choice([0, 1, -1]) for _ in range(dim)]
+            v[rng.randrange(dim)] = rng.choice([1, -1])
+            return v
+        def fvec():
+            v = [rng.choice([0.0, 0.5, -0.5, 1.0, 1.5]) * g for _ in range(dim)]
+            if not any(v): v[0] = 0.5 * g
+            return v
+        ops.append(rf())
+        for _ in range(rng.randint(1, 3)):
+            ops += ["epg.S(np.array(%s), prune=0)" % ivec(), rf()]
+            if rng.random() < 0.4: ops.append(relax())
+        for _ in range(rng.randint(1, 3)):
+            if rng.random() < 0.6:
+                ops.append("epg.S(np.array([%s, %s])%s)" % (fvec(), fvec(), rng.choice(["", ", prune=0"])))
+            else:
+                ops.append("epg.S(np.array(%s)%s)" % (fvec(), rng.choice(["", ", prune=0"])))
+            ops.append(rf())
     elif fam == "xchg":
         init = "epg.StateMatrix(shape=(2,))"
         for _ in range(n):
@@ -114,8 +138,12 @@ def gen_real(rng):
             elif k == "shift":
                 if dim == 1: ops.append("epg.S(%d)" % rng.choice([1, 2, -1]))
                 else: ops.append("epg.S(np.array(%s))" % [rng.choice([0, 1, -1, 2]) or 1 for _ in range(3)])
-            else:
+            elif rng.random() < 0.5 or not ops or not ops[-1].startswith("epg.S("):
                 ops.append("epg.D(%s, %s)" % (rng.choice([5, 20]), rng.choice([1.0, 2.5])))
+            else:
+                # D(tau, D, k): diffusion during the gradient that produced the preceding shift S(k)
+                kexpr = ops[-1][len("epg.S("):-1]
+                ops.append("epg.D(%s, %s, %s)" % (rng.choice([5, 20]), rng.choice([1.0, 2.5]), kexpr))
     return {"family": fam, "init": init, "ops": ops}
 
 
